@@ -763,6 +763,15 @@ def np_equal(I, a, k):
 
 def np_clip(I, a, k):
     x = a[0]
+    if numkind(x) is not None:
+        lo = a[1] if len(a) > 1 else k.get('a_min', k.get('min'))
+        hi = a[2] if len(a) > 2 else k.get('a_max', k.get('max'))
+        r = x
+        if lo is not None:
+            r = I.ite(zreal(r) >= zreal(lo), r, lo) if isinstance(r, SV) or isinstance(lo, SV) else max(r, lo)
+        if hi is not None:
+            r = I.ite(zreal(r) <= zreal(hi), r, hi) if isinstance(r, SV) or isinstance(hi, SV) else min(r, hi)
+        return r
     if not Mo.is_list(x):
         raise Unsupported('numpy.clip of %r' % (x,))
     arr = np_asarray_(I, [x], {})
